@@ -56,6 +56,14 @@ class Potential_Form_Registry(object):
     if register_standard:
       self._register_from_potentialforms(self._potential_forms)
 
+  def check_expressions(self):
+    """Parse the formulas of all [Potential-Form] entries now. They are otherwise parsed at first use, so that
+    a malformed formula which no entry of the model refers to would never be reported."""
+    for pf in self._potential_forms.values():
+      compile_func = getattr(getattr(pf, "potential_function", None), "compile", None)
+      if compile_func:
+        compile_func()
+
   def _make_standard_name(self, name):
     return self._standard_namespace + name
 
